@@ -7,10 +7,56 @@ BUILT = sys.argv[1:]  # ids that are claimed; others go to not_applicable with a
 hook_commits = subprocess.run(["git", "-C", "/repo", "log", "--format=%H", "--grep=^verif hooks"],
                               capture_output=True, text=True).stdout.split()
 
+HELD = "Held on every execution observed (counts, coverage cells and samples in the evidence file); nothing is proved. "
 CHECKS = {
- "C01": ("differential monitor: library vs independent executable specification (SPEC) on systematic + random (path, document) pairs",
-         "exploration", "Observed agreement with SPEC on every executed case (values, order, multiplicity, success/failure). Systematic enumeration makes the step-kind adjacency and comparator matrices complete; deeper shapes are random. Not a proof.",
-         "SPEC reads the intended semantics; standard deterministic user functions; sampling beyond the enumerated shapes", "4/C01"),
+ "C01": ("differential runtime monitor: real library vs independent executable specification (SPEC) on systematic + seeded random (path, document) pairs",
+         "exploration", HELD + "Systematic enumeration makes the step-kind adjacency and comparator x operand-kind matrices complete by construction (required cells are checked); deeper shapes are random.",
+         "SPEC reads the intended semantics (cross-checked by the oracle-free relations C08/C09/C10/C18); standard deterministic user functions", "4/C01"),
+ "C02": ("isolated-worker totality monitor on Parse: panic / process death / hang / (f,err) contract over 9 hostile string generators x 3 configurations",
+         "exploration", HELD + "A crash or hang of the worker process is observed by the parent and confirmed by re-running the culprit alone in a fresh process.",
+         "bounded time = returned before a 10 s watchdog (confirmed 3 x 60 s alone); strings <= 256 characters", "4/C02"),
+ "C03": ("isolated-worker totality monitor on evaluation: panic / death / hang / (res,err) contract, FunctionFailed only with a failing user function, pool-poison hook",
+         "exploration", HELD + "Paths come from the hostile generators filtered to those that parse plus ASTs with integer literals at +-2^31 / +-2^63; documents include non-JSON leaves.",
+         "bounded time as for C02; recording user functions", "4/C03"),
+ "C04": ("snapshot monitor (leaf types + container identities before/after every call, plain and accessor mode) and Go race detector on documents shared between goroutines",
+         "exploration", HELD + "The race part only counts reports on the memory of the shared documents.",
+         "user functions do not modify their arguments; races = those that happened on the observed interleavings", "4/C04"),
+ "C05": ("history monitor: call k of one parsed function vs fresh Retrieve, earlier result slices re-read and scribbled, pool-poison / canary / tree-fingerprint hooks",
+         "exploration", HELD + "Histories flip filter outcomes between consecutive documents, include failing calls, a panicking user function and unrelated calls that recycle pooled buffers.",
+         "sync.Pool reuse in one goroutine recycles buffers (hook counters report it); fresh Retrieve defines the history-free answer", "4/C05"),
+ "C06": ("Go race detector + per-operation sequential-result oracle over a mixed Parse / shared-function / Retrieve workload, 2..16 goroutines, yield injection at hooks",
+         "exploration", HELD + "Evidence reports operations, maximum evaluations in flight, evaluations overlapping a Parse and the race reports seen.",
+         "race detector sees only races that happened; schedules = those produced by the Go scheduler under yield injection on this machine", "4/C06"),
+ "C07": ("repetition monitor: same path on independently built equal maps interleaved with pool-recycling calls vs sort.Strings / pre-order / written order; key-scramble and key-poison hooks",
+         "exploration", HELD, "byte-wise order = Go string order; scramble hook forces adversarial input to the library's sort", "4/C07"),
+ "C08": ("relational monitor: Retrieve(P.Q) vs concatenation of Retrieve($.Q, v) for v in Retrieve(P) at every split point - three real retrievals, no reference model",
+         "exploration", HELD, "Q without $-rooted operand or aggregate, as the property states", "4/C08"),
+ "C09": ("relational monitor on selected-member sets: && = intersection, || = union, ! = complement, != vs ==, mirrored operators, <= = < union ==; oracle-free",
+         "exploration", HELD, "members pairwise non-DeepEqual so a value identifies its member", "4/C09"),
+ "C10": ("paired decode monitor (float64 vs json.Number) + explicit type-strictness model per selected member + SPEC in both decode modes",
+         "exploration", HELD, "number texts are Go's shortest formatting; path == path with a user-function output on one side is outside the quantifier", "4/C10"),
+ "C11": ("exhaustive enumeration of the stated finite slice/index space against a table produced by CPython's slice.indices",
+         "exploration", "Exhaustive for the stated finite space (85,169 slices x spellings, all listed indices): evidence sets exhaustive=true. Outside that space nothing is claimed.",
+         "CPython slice.indices defines a Python slice; the table is committed and reproducible with tools/gen_pyslice_golden.py", "4/C11"),
+ "C12": ("paired-mode monitor: accessor mode vs plain mode with identical recording user functions (results, errors, per-function argument logs)",
+         "exploration", HELD, "recording wrappers around the standard function set", "4/C12"),
+ "C13": ("Set/Get monitor: per result index Set a sentinel on a fresh copy and diff the whole document against SPEC's predicted location; liveness of Get",
+         "exploration", HELD, "SPEC's result locations define the selected location", "4/C13"),
+ "C14": ("call-log monitor: per function occurrence the ordered argument log vs SPEC's call protocol; argument-slice scribbling by the user function",
+         "exploration", HELD, "calls inside the right operand of a && / || already decided by its left operand may be skipped (either behaviour accepted)", "4/C14"),
+ "C15": ("error monitor: library error vs SPEC's failure-event candidate set at the deepest failing depth (exact for single-valued paths)",
+         "exploration", HELD, "SPEC's failure events define a failure that really occurs at a step; README error text formats", "4/C15"),
+ "C16": ("key monitor: up to 11 spellings of random Unicode keys among near-miss siblings vs direct map lookup",
+         "exploration", HELD, "keys are valid UTF-8; JSON-style escaping in brackets, backslash-escaped symbols in dot notation", "4/C16"),
+ "C17": ("translation validation by co-execution: generated parser vs an independent interpreter executing /repo/jsonpath.peg itself, restriction oracle, position/near check",
+         "translation_validation", "Every string is parsed by both parsers and the verdicts compared (accept/reject, error class, offset, near). Language equality is decided only on the strings tried; grammar-derived strings exercise every character-class boundary.",
+         "/repo/jsonpath.peg is the published grammar; PEGI implements PEG semantics for the syntax subset the file uses", "4/C17"),
+ "C18": ("relational monitor: canonical rendering vs 3..6 random spellings of one AST (spaces, quotes, integer spelling, .*/[*], .name/['name'], omitted $)",
+         "exploration", HELD, "the renderer's list of insignificant variations is the property's list", "4/C18"),
+ "C19": ("history monitor over Parse sequences vs the same call made first in a fresh child process; Config mutated after Parse; parser-residue hook",
+         "exploration", HELD, "first call of a fresh process = history-free meaning of Parse(path, config)", "4/C19"),
+ "C20": ("SPEC differential + no-panic monitor on documents whose leaves are 29 kinds of non-JSON Go values",
+         "exploration", HELD, "SPEC treats everything except map[string]interface{} and []interface{} as a leaf", "4/C20"),
 }
 
 def entry(pid):
